@@ -118,3 +118,14 @@ func vs_schemeOK(m map[string]spec.SecurityScheme, g GenSecurityScheme) bool {
 		g.IsBasicAuth == (g.Type == "basic") && g.IsAPIKeyAuth == (g.Type == "apikey") && g.IsOAuth2 == (g.Type == "oauth2") &&
 		g.Name == m[g.ID].Name && g.In == m[g.ID].In && g.Source == m[g.ID].In
 }
+
+// vs_anyConstraint: the schema carries one of the validation keywords the property statement
+// lists (enum, numeric bounds incl. exclusive flags and multipleOf, string lengths, pattern,
+// item counts, uniqueItems, property counts / pattern properties).
+func vs_anyConstraint(m *spec.Schema) bool {
+	return len(m.Enum) > 0 ||
+		m.Maximum != nil || m.Minimum != nil || m.MultipleOf != nil ||
+		m.MaxLength != nil || m.MinLength != nil || m.Pattern != "" ||
+		m.MaxItems != nil || m.MinItems != nil || m.UniqueItems ||
+		m.MaxProperties != nil || m.MinProperties != nil || len(m.PatternProperties) > 0
+}
